@@ -81,18 +81,18 @@ structure InvS (s : Sys) : Prop where
   core : InvQ s.sh (pending s) s.log
   wa : ∀ t ∈ s.threads, WA t
 
-theorem pending_init (capacity nthreads : Nat) : pending (Sys.init capacity nthreads) = [] := by
-  unfold pending Sys.init
+theorem pending_init (clr : Bool) (capacity nthreads : Nat) : pending (Sys.initCfg clr capacity nthreads) = [] := by
+  unfold pending Sys.initCfg
   induction nthreads with
   | zero => rfl
   | succ n ih => simp [List.replicate_succ] at ih ⊢
 
-theorem invS_init (capacity nthreads : Nat) : InvS (Sys.init capacity nthreads) := by
+theorem invS_init (clr : Bool) (capacity nthreads : Nat) : InvS (Sys.initCfg clr capacity nthreads) := by
   refine ⟨?_, ?_⟩
   · rw [pending_init]
-    refine ⟨?_, ?_, ?_, ?_, ?_, ?_⟩ <;> simp [Sys.init, Shared.new]
+    refine ⟨?_, ?_, ?_, ?_, ?_, ?_⟩ <;> simp [Sys.initCfg, Shared.newCfg]
   · intro t ht
-    simp only [Sys.init, List.mem_replicate] at ht
+    simp only [Sys.initCfg, List.mem_replicate] at ht
     rw [ht.2]; trivial
 
 theorem wa_set {ts : List (List Instr)} {t : Nat} {x : List Instr} (h : ∀ t' ∈ ts, WA t') (hx : WA x) :
@@ -145,7 +145,7 @@ theorem invS_step {g : Bool} {s s' : Sys} {a : Act} (hi : Inv g s) (h : InvS s)
 
 theorem invS_reachable {g : Bool} {s : Sys} (h : Reachable g s) : InvS s := by
   induction h with
-  | init c n => exact invS_init c n
+  | init clr c n => exact invS_init clr c n
   | step a hr hs ih => exact invS_step (inv_reachable hr) ih hs
 
 /-- **Quiescent**: every thread has finished every call it started — no instruction is pending anywhere.  This is
@@ -212,7 +212,7 @@ theorem recent_nil_of_closed_quiescent {g : Bool} {s : Sys} (hr : Reachable g s)
 theorem ctor_lt_nextVal {g : Bool} {s : Sys} (hr : Reachable g s) {id v : Nat} (h : Ev.ctor id v ∈ s.log) :
     v < s.sh.nextVal := by
   induction hr with
-  | init c n => simp [Sys.init] at h
+  | init clr c n => simp [Sys.initCfg] at h
   | @step s s' a hr hs ih =>
     have hlog' := logOK_reachable (Reachable.step a hr hs)
     rcases sysStep_cases hs with ⟨t, c, rfl, ht, _, rfl⟩ | ⟨t, i, rest, sh', push, evs, rfl, ht, he, _, rfl⟩
